@@ -104,6 +104,8 @@ static void allSetters(int run, Circuit &c, const char *obj) {
 
 // One placement call; throwAt = index of the callback that throws (-1 never); setters are attempted inside the first two
 // callbacks and inside the throwing one.  Returns the number of callbacks seen.
+static std::optional<Circuit> g_snap;   // a copy of the circuit taken by the callback (first callback of a call), if requested
+static bool g_takeSnap = false;
 static int call(int run, Circuit &c, const char *obj, const std::string &stage, const ColoquinteParameters &p, int throwAt, bool settersInCb) {
   Value b = vt::ev("Begin");
   b.set("run", run).set("obj", obj).set("stage", stage).set("cb", true);
@@ -113,6 +115,7 @@ static int call(int run, Circuit &c, const char *obj, const std::string &stage, 
     Value e = vt::ev("Cb");
     e.set("run", run).set("obj", obj).set("step", stepName(s)).set("idx", idx).set("circ", vp::circuitToJson(c)).set("wl", c.hpwl());
     vt::emit(e);
+    if (g_takeSnap && idx == 0) g_snap = c;
     if (settersInCb && (idx < 2 || idx == throwAt)) allSetters(run, c, obj);
     if (idx == throwAt) {
       Value t = vt::ev("CbThrow");
@@ -169,11 +172,24 @@ static void protoRun(int run, const Circuit &base, vg::Rng &r) {
     Value rb = vt::ev("Rebase");
     rb.set("run", run).set("circ", vp::circuitToJson(b)).set("wl", b.hpwl());
     vt::emit(rb);
+    g_takeSnap = (k == 0);
+    g_snap.reset();
     call(run, b, "B", stage, p, k, true);
+    g_takeSnap = false;
     allSetters(run, b, "B");
     // a further placement call must be allowed and behave
     ColoquinteParameters q = p;
     call(run, b, "B", "legalize", q, -1, false);
+    if (g_snap) {
+      // a copy of the circuit taken inside the callback: once a placement call on the copy has ended, the copy accepts modifications
+      Circuit snap = *g_snap;
+      Value rb2 = vt::ev("Rebase");
+      rb2.set("run", run).set("circ", vp::circuitToJson(snap)).set("wl", snap.hpwl());
+      vt::emit(rb2);
+      call(run, snap, "D", "legalize", q, -1, false);
+      allSetters(run, snap, "D");
+      g_snap.reset();
+    }
   }
   // (c) rejected parameters
   {
